@@ -183,6 +183,14 @@ func gnSetReqStream(rng *rand.Rand, n int, tier string, out string) (*Summary, e
 		g := newTreeGen(rng, p)
 		g.maxList = 2
 		d := &gnDesc{rng: rng, g: g, pkg: p}
+		if !replaying || rp.Index == -2 {
+			// directed (own PRNG): atomic notifications that carry nothing
+			mc := 6
+			if tier == "thorough" {
+				mc = 40
+			}
+			gnAtomicEmptyCases(p, rand.New(rand.NewSource(seed^vdHash("atomic-empty"+name))), mc, tf, &id, sum, gnReplay{Seed: seed, N: n, Tier: tier, Index: -2})
+		}
 		for done := 0; done < per; done++ {
 			index++
 			g.pField = 0.2 + 0.25*rng.Float64()
